@@ -339,7 +339,11 @@ class MuxSocketTransportSink(ClientMessageSink):
       The ClientChannelSinkStack associated with the tag's response.
     """
     tup = self._tag_map.pop(tag, None)
-    self._tag_pool.release(tag)
+    if tup is not None:
+      # Only tags that are actually outstanding go back to the pool; a frame
+      # from the peer for a tag we never issued (or a reserved one) must not
+      # make that tag available to requests.
+      self._tag_pool.release(tag)
     return tup
 
   @abstractmethod
